@@ -103,11 +103,26 @@ def setup():
 # --------------------------------------------------------------------------- proof audit
 
 def theorem_names(module_file):
+    """-> (fully qualified theorem names, comment-free source); follows nested namespaces"""
     src = open(module_file).read()
     # strip comments
     src_nc = re.sub(r"/-.*?-/", "", src, flags=re.S)
     src_nc = re.sub(r"--.*", "", src_nc)
-    names = re.findall(r"^theorem\s+([A-Za-z0-9_'.]+)", src_nc, flags=re.M)
+    stack, names = [], []
+    for line in src_nc.splitlines():
+        m = re.match(r"^namespace\s+(\S+)", line)
+        if m:
+            stack.append(m.group(1))
+            continue
+        m = re.match(r"^end\s+(\S+)", line)
+        if m and stack and stack[-1] == m.group(1):
+            stack.pop()
+            continue
+        # private theorems cannot be named from the audit file; they are reached through the
+        # public theorems that use them (and by the forbidden-token scan)
+        m = re.match(r"^(?:@\[[^\]]*\]\s*)?(?:protected\s+)?theorem\s+([A-Za-z0-9_'.]+)", line)
+        if m:
+            names.append(".".join(stack + [m.group(1)]))
     return names, src_nc
 
 
@@ -123,10 +138,7 @@ def audit_props(ctx, modules):
     for m in modules:
         f = os.path.join(LEAN, m.replace(".", "/") + ".lean")
         names, src_nc = theorem_names(f)
-        ns = re.search(r"^namespace\s+(\S+)", src_nc, flags=re.M)
-        prefix = ns.group(1) + "." if ns else ""
-        for n in names:
-            allnames.append(prefix + n)
+        allnames.extend(names)
     # forbidden tokens anywhere in the model, specs, lemmas, props
     for f in glob.glob(os.path.join(LEAN, "SkaModel", "**", "*.lean"), recursive=True):
         _, src_nc = theorem_names(f)
@@ -153,8 +165,7 @@ def audit_props(ctx, modules):
     info["theorems"] = allnames
     missing = [n for n in allnames if n not in info["axioms"]]
     info["unaudited"] = missing
-    bad_ax = {k: v for k, v in info["nonstandard_axioms"].items()
-              if any("bv_decide" not in a for a in v)}
+    bad_ax = info["nonstandard_axioms"]
     ok = (not missing) and (not info["forbidden_tokens"]) and (not bad_ax)
     return ok, info
 
